@@ -624,7 +624,10 @@ func runCliHistory(sc *cliScenario, rng *rand.Rand) proto.Rec {
 				known := cl.Brokers()
 				before := crec.count()
 				var rerr error
-				if st.Refresh == "full" {
+				if st.Refresh == "full" && i%3 == 1 {
+					// "all topics" spelled as an empty list instead of no argument
+					rerr = cl.RefreshMetadata([]string{}...)
+				} else if st.Refresh == "full" {
 					rerr = cl.RefreshMetadata()
 				} else {
 					rerr = cl.RefreshMetadata(st.RTopics...)
